@@ -210,6 +210,25 @@ def load_known():
     return json.load(open(p)).get("findings", [])
 
 
+def known_matches(k, f):
+    """A known-findings entry matches a failing input when every string of its `match` list occurs in the JSON
+    of the case, and (if given) the case's api starts with one of `api_prefixes`.  Entries are written by hand
+    in known_findings.json and identify one specific failing input class / call site."""
+    case = f.get("case") if isinstance(f, dict) else None
+    key = json.dumps(case, sort_keys=True, default=str)
+    ms = k.get("match")
+    if isinstance(ms, str):
+        ms = [ms]
+    if not ms or not all(m in key for m in ms):
+        return False
+    apis = k.get("api_prefixes")
+    if apis:
+        api = str(case.get("api", "")) if isinstance(case, dict) else ""
+        if not any(api.startswith(a) for a in apis):
+            return False
+    return True
+
+
 def finish(ctx, level="proof", rule="", checker_cmd=""):
     """Writes evidence, prints VIOLATION / KNOWN-FINDING lines, returns exit code."""
     nob = len(ctx.obligations)
